@@ -59,7 +59,7 @@ TOLERANCES = {
     "sample-quantile": 1e-12, "ecdf-distance": 0.04,
     "derived-ratio": 32.0, "bgauss-proportional": 1e-12,
 }
-TIMEOUT = 120
+TIMEOUT = 600
 EXHAUSTIVE = True          # set per tier in cases()
 PREIMPORT = ["holopy", "holopy.core.prior", "holopy.core.mapping"]
 
